@@ -10,7 +10,9 @@ declare -A MAP=(
  [container]="C02 C03 C04 C05 C09 C10 C11" [executor]="C01 C02 C03 C04 C08 C09 C10 C11" [exec2]="C01 C02 C03 C04 C08 C09 C10 C11"
  [naive_overbook]="C08 C17 C18" [priority]="C08 C12" [prioritypool]="C08 C12 C16" [rest]="C19" [rest2]="C19"
  [simulator]="C06 C07 C08" [stats]="C06 C07 C08" [status]="C01 C02 C09" [tools]="C20" [workload]="C07 C13 C15" [gen]="C07 C15"
- [naming]="C06 C08 C09 C14 C19" [order]="C01 C02 C03 C09 C10" [sizing]="C08 C12 C16 C17 C18" [tracefmt]="C13 C14 C20")
+ [naming]="C06 C08 C09 C14 C19" [order]="C01 C02 C03 C09 C10" [sizing]="C08 C12 C16 C17 C18" [tracefmt]="C13 C14 C20"
+ [restproto2]="C19 C07" [suspend2]="C02 C03 C04 C09 C10 C12" [priority2]="C08 C12" [prioritypool2]="C08 C12 C16" [oom2]="C04 C05 C11" [lifecycle2]="C01 C02 C19"
+ [generator2]="C07 C08 C13 C15" [simloop2]="C06 C07 C08" [structs3]="C02 C03 C04 C08 C09 C10 C11 C12 C16 C17 C18" [perf3]="C01 C03 C07 C08 C15 C19" [limits3]="C03 C08 C13 C14 C20" [obs3]="C06 C08 C19")
 ALLIDS="C01 C02 C03 C04 C05 C06 C07 C08 C09 C10 C11 C12 C13 C14 C15 C16 C17 C18 C19 C20"
 for d in /verif/seeded/_benign/* /verif/seeded/_legit/*; do
   a=$(basename $d)
